@@ -185,7 +185,8 @@ def _files11(expr, hist, p, cre, texts, viol, cnt):
             t.encode('utf-8')
         except UnicodeEncodeError:
             continue
-        path = os.path.join(_TD11, 'f%d_%d.txt' % (os.getpid(), i))
+        # two of three texts go through one path whose file is rewritten (the instance has read the earlier content), the third gets a fresh path
+        path = os.path.join(_TD11, 'f%d_%d.txt' % (os.getpid(), i if i % 3 == 2 else 0))
         with open(path, 'w', encoding='utf-8', newline='') as fh:
             fh.write(t)
         want = model11(cre, t)
@@ -199,8 +200,10 @@ def _files11(expr, hist, p, cre, texts, viol, cnt):
             if v != want[k]:
                 viol.append(V('C11|%s|%s|file|%s' % (expr, '>'.join(hist), k),
                               f"{expr} after [{', '.join(hist)}]: {k}(path, is_path=True) on a file containing {t!r} = {v!r}, re gives {want[k]!r}",
-                              "import tempfile, os\np = %s\n%s\nf = os.path.join(tempfile.mkdtemp(), 'f.txt')\nopen(f, 'w', encoding='utf-8', newline='').write(%r)\n"
-                              "assert p.%s(f, is_path=True) == %r" % (expr, '\n'.join(EVENT_SRC[e] for e in hist), t, k, want[k])))
+                              "import tempfile, os\np = %s\n%s\nf = os.path.join(tempfile.mkdtemp(), 'f.txt')\n"
+                              "for prev in %r:\n    open(f, 'w', encoding='utf-8', newline='').write(prev)\n    for m in ('has_match', 'is_exact_match', 'get_matches', 'get_matches_and_pos'):\n        getattr(p, m)(f, is_path=True)\n"
+                              "open(f, 'w', encoding='utf-8', newline='').write(%r)\n"
+                              "assert p.%s(f, is_path=True) == %r" % (expr, '\n'.join(EVENT_SRC[e] for e in hist), [x for x in texts[max(0, i - 2):i] if '\r' not in x], t, k, want[k])))
                 return
 
 
@@ -405,6 +408,14 @@ def model12(cre, t):
     return res, ms
 
 
+def _safe(f):
+    """a library call inside an engine: an exception is an observation, not a harness failure"""
+    try:
+        return f()
+    except Exception as e:  # noqa: BLE001
+        return 'raised ' + type(e).__name__
+
+
 def _task12(arg):
     chunk, L = arg
     viol = []
@@ -455,9 +466,9 @@ def _task12(arg):
                 kw = {'include_empty': ie}
                 if rel is not None:
                     kw['relative_to_match'] = rel
-                got = getattr(p, meth)(t, **kw)
-                it = list(getattr(pc if ti % 2 else p, meth.replace('get_', 'iterate_'))(t, **kw))
-                if ti % 3 == 0 and getattr(pc, meth)(t, **kw) != got:
+                got = _safe(lambda: getattr(p, meth)(t, **kw))
+                it = _safe(lambda: list(getattr(pc if ti % 2 else p, meth.replace('get_', 'iterate_'))(t, **kw)))
+                if ti % 3 == 0 and _safe(lambda: getattr(pc, meth)(t, **kw)) != got:
                     it = 'compiled instance disagrees'
                     cnt['observations'] += 1
                 cnt['observations'] += 2
@@ -517,7 +528,12 @@ def run_C12(run):
 FLAT_LAYOUTS = ["Capture('a')", "Capture('a') + Capture('b')", "Capture('a', 'x') + Optional(Capture('b'))",
                 "Capture(Indefinite('a')) + 'b'", "Either(Capture('a'), Capture('b', 'y'))", "'a' + Capture(Optional('b')) + Capture(Indefinite('a'))",
                 "Optional(Capture('a')) + Optional(Capture('b', 'n'))", "Capture(Either('a', 'ab'))", "Indefinite(Capture('a')) + 'b'",
-                "Capture(Pregex()) + 'a'"]
+                "Capture(Pregex()) + 'a'",
+                # texts of the pattern that imitate or hide a group: literal backslash / parenthesis next to a capture, parentheses inside classes
+                "Pregex('\\\\') + Capture('a')", "Capture(Pregex('\\\\')) + 'a'", "'(' + Capture('a') + ')'", "Capture('(')", "Capture(AnyFrom('(', ')'))",
+                "Group('a') + Capture('b')", "Capture('a') + Group(Optional('b'))", "Pregex('\\\\') + Capture('a', 'x') + Pregex('\\\\') + Capture('b')",
+                "AnyFrom('(', 'a') + Capture('b')", "Capture('a') + '?'", "Pregex('(?:') + Capture('a')"]
+FLAT_EXTRA = {e: '(?:' if "'(?:'" in e else ('\\' if '\\\\' in e else '') + ('(' if "'('" in e or "'(?:'" in e else '') + (')' if "')'" in e else '') + ('?' if "'?'" in e else '') or 'c' for e in FLAT_LAYOUTS}
 
 
 def _task13(arg):
@@ -542,11 +558,11 @@ def _task13(arg):
             ms = list(cre.finditer(t))
             # split_by_match
             if 'sbm' not in bad:
-                pieces = p.split_by_match(t)
+                pieces = _safe(lambda: p.split_by_match(t))
                 cnt['observations'] += 1
-                rebuilt = ''.join(a + m.group(0) for a, m in zip(pieces, ms)) + (pieces[-1] if pieces else '')
+                rebuilt = None if isinstance(pieces, str) else ''.join(a + m.group(0) for a, m in zip(pieces, ms)) + (pieces[-1] if pieces else '')
                 cnt['reconstructions'] += 1
-                if len(pieces) != len(ms) + 1 or rebuilt != t:
+                if isinstance(pieces, str) or len(pieces) != len(ms) + 1 or rebuilt != t:
                     bad.add('sbm')
                     viol.append(V('C13|%s|split_by_match' % expr,
                                   f"{expr}: split_by_match({t!r}) = {pieces!r} does not rebuild the source with the {len(ms)} matches",
@@ -564,14 +580,14 @@ def _task13(arg):
                         out.append(t[idx:m.start()] + repl)
                         idx = m.end()
                     want = ''.join(out) + t[idx:]
-                    got = p.replace(t, repl, count)
+                    got = _safe(lambda: p.replace(t, repl, count))
                     cnt['observations'] += 1
                     if got != want:
                         bad.add(('rep', count))
                         viol.append(V('C13|%s|replace|%d' % (expr, count),
                                       f"{expr}: replace({t!r}, {repl!r}, {count}) = {got!r}, expected {want!r}",
                                       '%s\nassert p.replace(%r, %r, %d) == %r' % (setup, t, repl, count, want)))
-                    if count == 0 and 'join' not in bad and got != repl.join(p.split_by_match(t)):
+                    if count == 0 and 'join' not in bad and got != _safe(lambda: repl.join(p.split_by_match(t))):
                         bad.add('join')
                         viol.append(V('C13|%s|replace-vs-split' % expr,
                                       f"{expr}: replace({t!r}, {repl!r}) differs from joining the split pieces",
@@ -588,11 +604,11 @@ def _task13(arg):
                             if g is None or (not ie and g == ''):
                                 continue
                             caps.append(g)
-                    pieces = p.split_by_capture(t, ie)
+                    pieces = _safe(lambda: p.split_by_capture(t, ie))
                     cnt['observations'] += 1
                     cnt['reconstructions'] += 1
-                    rebuilt = ''.join(a + c for a, c in zip(pieces, caps)) + (pieces[-1] if pieces else '')
-                    if len(pieces) != len(caps) + 1 or rebuilt != t:
+                    rebuilt = None if isinstance(pieces, str) else ''.join(a + c for a, c in zip(pieces, caps)) + (pieces[-1] if pieces else '')
+                    if isinstance(pieces, str) or len(pieces) != len(caps) + 1 or rebuilt != t:
                         bad.add(('sbc', ie))
                         viol.append(V('C13|%s|split_by_capture|%s' % (expr, ie),
                                       f"{expr}: split_by_capture({t!r}, {ie}) = {pieces!r} does not rebuild the source with captures {caps!r}",
@@ -614,7 +630,7 @@ def _task13(arg):
 
 def run_C13(run):
     thorough = run.tier == 'thorough'
-    pats = patterns(run.tier) + [(e, 'c') for e in FLAT_LAYOUTS]
+    pats = patterns(run.tier) + [(e, FLAT_EXTRA[e]) for e in FLAT_LAYOUTS]
     L = 6 if thorough else 5
     tot = {}
     for viol, cnt in common.pmap(_task13, [(c, L) for c in common.chunks(pats, 2)]):
@@ -637,15 +653,26 @@ def run_C13(run):
 # ----------------------------------------------------------------------------------
 # C14
 # ----------------------------------------------------------------------------------
-PATH_METHODS = [
-    ('has_match', {}), ('is_exact_match', {}), ('get_matches', {}), ('get_matches_and_pos', {}),
-    ('get_matches_with_context', {'n_left': 2, 'n_right': 1}), ('get_captures', {}), ('get_captures', {'include_empty': False}),
-    ('get_captures_and_pos', {'relative_to_match': True}), ('get_named_captures', {}), ('get_named_captures_and_pos', {'include_empty': False}),
-    ('iterate_matches', {}), ('iterate_matches_and_pos', {}), ('iterate_matches_with_context', {'n_left': 1, 'n_right': 3}),
-    ('iterate_captures', {}), ('iterate_captures_and_pos', {}), ('iterate_named_captures', {}), ('iterate_named_captures_and_pos', {}),
-    ('replace', {'repl': 'X'}), ('replace', {'repl': '-', 'count': 1}), ('split_by_match', {}), ('split_by_capture', {}),
-    ('split_by_capture', {'include_empty': False}),
-]
+def _path_methods():
+    """every public method with an is_path parameter x the full product of its other keyword arguments over small domains
+    (each also left at its default)"""
+    import itertools
+    dom = {'include_empty': [None, True, False], 'relative_to_match': [None, True, False], 'n_left': [None, 0, 1, 3], 'n_right': [None, 0, 2],
+           'repl': ['X', ''], 'count': [None, 0, 1, 2]}
+    sig = {'has_match': [], 'is_exact_match': [], 'get_matches': [], 'get_matches_and_pos': [], 'iterate_matches': [], 'iterate_matches_and_pos': [],
+           'get_matches_with_context': ['n_left', 'n_right'], 'iterate_matches_with_context': ['n_left', 'n_right'],
+           'get_captures': ['include_empty'], 'iterate_captures': ['include_empty'], 'get_named_captures': ['include_empty'], 'iterate_named_captures': ['include_empty'],
+           'get_captures_and_pos': ['include_empty', 'relative_to_match'], 'iterate_captures_and_pos': ['include_empty', 'relative_to_match'],
+           'get_named_captures_and_pos': ['include_empty', 'relative_to_match'], 'iterate_named_captures_and_pos': ['include_empty', 'relative_to_match'],
+           'replace': ['repl', 'count'], 'split_by_match': [], 'split_by_capture': ['include_empty']}
+    out = []
+    for meth, params in sig.items():
+        for combo in itertools.product(*[dom[k] for k in params]):
+            out.append((meth, {k: v for k, v in zip(params, combo) if v is not None}))
+    return out
+
+
+PATH_METHODS = _path_methods()
 C14_PATTERNS = ["Pregex('a')", "Indefinite('a')", "Capture('a', 'x') + Optional(Capture('b'))", "MatchAtLineStart('a')",
                 "MatchAtLineEnd(OneOrMore(AnyButFrom('\\n')))", "Pregex('é')", "Any()", "Either(Capture('a'), Capture('b', 'y'))",
                 "WordBoundary()", "Pregex('/')", "OneOrMore(AnyLetter())", "Capture(Indefinite('a')) + 'b'"]
@@ -704,7 +731,7 @@ def _task14(arg):
                         a = _call(pc if i % 2 else p, meth, path, kw, True)
                     except Exception as e:  # noqa: BLE001
                         a = 'raised ' + type(e).__name__
-                    b = _call(p, meth, text, kw, False)
+                    b = _safe(lambda: _call(p, meth, text, kw, False))
                     if a != b:
                         bad.add(meth)
                         viol.append(V('C14|%s|%s|is_path' % (expr, meth),
@@ -743,8 +770,8 @@ def _task14(arg):
                     continue
                 for nl, nr in sizes:
                     want = [text[max(m.start() - nl, 0):min(m.end() + nr, len(text))] for m in cre.finditer(text)]
-                    got = p.get_matches_with_context(text, nl, nr)
-                    got_it = list(p.iterate_matches_with_context(text, n_left=nl, n_right=nr))
+                    got = _safe(lambda: p.get_matches_with_context(text, nl, nr))
+                    got_it = _safe(lambda: list(p.iterate_matches_with_context(text, n_left=nl, n_right=nr)))
                     cnt['windows'] += 1
                     cnt['observations'] += 2
                     if got != want or got_it != want:
